@@ -1,0 +1,8 @@
+//go:build !verif
+
+// Package verifhook provides observation/yield points for runtime verification.
+// Without the "verif" build tag every point is an empty function.
+package verifhook
+
+// Point marks a place where a worker has received (or is about to deliver) a unit of work.
+func Point(site string, worker, id int) {}
